@@ -45,7 +45,7 @@ func writeManifest(path string) error {
 			"technique":  m.Technique,
 		})
 	}
-	var na []map[string]string
+	na := []map[string]string{}
 	var naIDs []string
 	for k := range notApplicable {
 		naIDs = append(naIDs, k)
